@@ -407,7 +407,12 @@ class Dependent:
         bound, dt = item
         if not isinstance(dt, DependentType):
             dt = dependent_check(dt)
-        return dt.with_bound(normalize_type(bound, None))
+        bound = normalize_type(bound, None)
+        if isinstance(bound, DependentType):
+            # The bound has a condition of its own (e.g. list[int]): it
+            # must hold as well, not only its own bound (list).
+            return Intersection[bound, dt.with_bound(bound.bound)]
+        return dt.with_bound(bound)
 
 
 if TYPE_CHECKING:  # pragma: no cover
